@@ -282,7 +282,8 @@ def influence_matrix_shared_option(case, v):
     msg = _msg(v)
     if v['kind'] in ('decode_failed', 'row_decode_failed', 'redecode_failed'):
         return any(t in msg for t in ('Unexpected inactive choice', 'Des var node not found', 'Connection choice not does',
-                                      'Infeasible graph specified', 'No more feasible architectures'))
+                                      'Infeasible graph specified', 'No more feasible architectures',
+                                      'Node not part of connection choice'))
     return True
 
 
@@ -354,3 +355,23 @@ def pattern_encoder_variables_for_single_matrix(case, v):
     design variables (each with one usable value)"""
     d = _d(v)
     return (d.get('n_total') is not None and d.get('n_total') <= 1) and 'Pattern' in v.get('detail', '')
+
+
+def connection_choice_without_any_source(case, v):
+    """KF22: a connection choice none of whose source connectors exists in any architecture (e.g. their parents are
+    incompatible with a start node) is dropped when the graph is initialised; target connectors that require a connection
+    then make some selection scenarios infeasible only at graph level: the COMPLETE enumeration still lists those
+    scenarios and decoding corrects them to another design"""
+    from . import refsel
+    spec = _spec(case)
+    if not spec.get('conns'):
+        return False
+    try:
+        archs = refsel.Model(spec).sel_architectures(arch_max=2000)
+    except Exception:  # noqa
+        return False
+    for cc in spec['conns']:
+        srcs = [it['grp'] if isinstance(it, dict) else it for it in cc['src']]
+        if not any(s_ in a['nodes'] for a in archs for s_ in srcs):
+            return True
+    return False
